@@ -79,6 +79,26 @@ pub fn capi_case(
         .boxed()
 }
 
+/// Like `capi_case`, with the generated history folded into one very long first call (hundreds of
+/// events: more than any chunk a wrapper might process at a time), followed by the history itself.
+pub fn capi_long_case(
+    machines: std::ops::RangeInclusive<usize>,
+    tweak: impl Fn(&mut crate::gen::MachineParams),
+    hp: &crate::gen::HistParams,
+) -> proptest::strategy::BoxedStrategy<FwCase> {
+    use proptest::strategy::Strategy;
+    (capi_case(machines, tweak, hp), 65usize..700)
+        .prop_map(|(mut c, len)| {
+            let flat: Vec<crate::spec::Ev> = c.calls.iter().flat_map(|x| x.events.iter().copied()).collect();
+            if !flat.is_empty() {
+                let long: Vec<crate::spec::Ev> = flat.iter().cycle().take(len).copied().collect();
+                c.calls.insert(0, crate::spec::Call { clock: crate::spec::Clock::Add(1), events: long });
+            }
+            c
+        })
+        .boxed()
+}
+
 /// The property at the C API: the history is run through maybenot_start / maybenot_on_events /
 /// maybenot_stop (output buffer between canaries, count pre-set to garbage) and every call is
 /// compared with the Rust framework, which the caller then holds to the property on the same
